@@ -6,7 +6,7 @@ CONSTANTS
  Subscribers = {2}
  MaxOps = 1
  MaxSends = 4
- MaxServes = 2
+ MaxServes = 1
  MaxApplies = 1
  Faults = FALSE
  MaxFaults = 1
